@@ -445,7 +445,10 @@ class Matcher:
 
     def bound_ok(self, ctx, r, item):
         keep = len(self.findings)
-        self.check_bound(ctx, r, item, guard=True)
+        if self.binder is not None:
+            self.binder(self, ctx, r, item)
+        else:
+            self.check_bound(ctx, r, item, guard=True)
         ok = len(self.findings) == keep
         del self.findings[keep:]
         return ok
